@@ -195,7 +195,9 @@ func (d *f32Decoder) FromDom(vp unsafe.Pointer, node Node, ctx *context) error {
 	}
 
 	ret, ok := node.AsF64(ctx)
-	if !ok || ret > math.MaxFloat32 || ret < -math.MaxFloat32 {
+	// the value fits iff it is finite after rounding to float32 (as encoding/json
+	// and the JIT decoder decide): 3.4028235e+38, the text of math.MaxFloat32, is in range
+	if !ok || math.IsInf(float64(float32(ret)), 0) {
 		return error_mismatch(node, ctx, float32Type)
 	}
 
